@@ -285,7 +285,17 @@ impl<'a, 'b> TagBlock<'a, 'b> {
             return Ok(None);
         }
 
-        let element = self.iter.next().expect("File shouldn't end before EOI.");
+        let element = match self.iter.next() {
+            Some(element) => element,
+            // A nested block that failed at the end of the input has already consumed `EOI`.
+            None => {
+                return Error::with_msg(format!(
+                    "Unclosed block. {{% {} %}} tag expected.",
+                    self.end_tag
+                ))
+                .into_err();
+            }
+        };
 
         if element.as_rule() == Rule::EOI {
             return error_from_pair(
@@ -406,7 +416,12 @@ impl<'a, 'b> TagBlock<'a, 'b> {
             end_pos = Some(element_as_span.end_pos());
         }
 
-        panic!("Function must eventually find either a Rule::EOI or a closing tag.")
+        // A nested block that failed at the end of the input has already consumed `EOI`.
+        Error::with_msg(format!(
+            "Unclosed block. {{% {} %}} tag expected.",
+            self.end_tag
+        ))
+        .into_err()
     }
 
     /// A convenient method that parses every element remaining in the block.
